@@ -8,16 +8,20 @@ VFILES := $(shell find coq/theories -name '*.v' -not -path '*/Props/*')
 
 setup: coq drivers
 
-coq/Makefile: coq/_CoqProject
-	cd coq && coq_makefile -f _CoqProject -o Makefile
-
-coq: coq/Makefile
-	cd coq && timeout 3000 $(MAKE) -j16 --no-print-directory
+# _CoqProject is generated: every .v under theories/ except Props/ (those are
+# re-checked by each check run).  The whole Coq build is serialised by a lock
+# so that concurrent checks do not race on .vo files.
+coq:
+	@mkdir -p build
+	flock build/.coq.lock sh -c '( echo "-R theories PS"; cd coq && find theories -name "*.v" -not -path "*/Props/*" | LC_ALL=C sort ) > build/_CoqProject.new; \
+	  cmp -s build/_CoqProject.new coq/_CoqProject || cp build/_CoqProject.new coq/_CoqProject; \
+	  cd coq && ( [ -f Makefile ] && [ Makefile -nt _CoqProject ] || coq_makefile -f _CoqProject -o Makefile ) && timeout 3000 $(MAKE) -j16 --no-print-directory'
 
 drivers: coq
 	for id in $(IDS); do $(MAKE) --no-print-directory build/$$id/driver || exit 1; done
 
-driver: coq build/$(ID)/driver
+driver: coq
+	flock build/.drv.$(ID).lock $(MAKE) --no-print-directory build/$(ID)/driver
 
 build/%/driver: coq/extract/%.v ocaml/driver.ml $(VFILES)
 	mkdir -p build/$*
